@@ -174,6 +174,15 @@ def op_readback(case, o):
         dt = ctor[1]
         rows = ctor[2]
         m = np.array([dec_seq(r, dt) for r in rows], dtype=DT2NP[dt]).reshape(len(rows), len(rows[0]) if rows else 0)
+        lay = o.get("layout", "C")                 # the same matrix in another memory layout is the same matrix
+        if lay == "F":
+            m = np.asfortranarray(m)
+        elif lay == "T":
+            m = np.ascontiguousarray(m.T).T
+        elif lay == "strided":
+            big = np.zeros((m.shape[0], 2 * m.shape[1]), dtype=m.dtype)
+            big[:, ::2] = m
+            m = big[:, ::2]
         a = RaggedArray.from_numpy_array(m)
     else:
         raise ValueError(ctor)
